@@ -327,6 +327,59 @@ func runC04(c *Ctx) {
 			}
 		}
 		c.Sites["C04-R3#VM-literals"] = nLit
+		// a VM created by a running VM (the body of an async block) runs the same program for the same request: it is
+		// held to the bound its creator was given, not to the package default
+		nChild := 0
+		for _, fn := range c.srcFuncs(vmPkg) {
+			top := fn
+			for top.Parent() != nil {
+				top = top.Parent()
+			}
+			if top.Signature.Recv() == nil || !typeIs(derefPtr(top.Signature.Recv().Type()), vmPath, "VM") {
+				continue
+			}
+			k := 0
+			eachInstr(fn, func(_ *ssa.BasicBlock, _ int, ins ssa.Instruction) {
+				var made ssa.Value
+				switch x := ins.(type) {
+				case *ssa.Call:
+					if callName(x) == vmPath+".NewVM" {
+						made = x
+					}
+				case *ssa.Alloc:
+					if typeIs(derefPtr(x.Type()), vmPath, "VM") && x.Comment == "complit" {
+						made = x
+					}
+				}
+				if made == nil {
+					return
+				}
+				k++
+				nChild++
+				fromCreator := func(v ssa.Value) bool {
+					return derivesFrom(v, func(z ssa.Value) bool { return loadedFromField(z, "VM", "maxSteps") })
+				}
+				inherits := false
+				for _, r := range refs(made) {
+					switch y := r.(type) {
+					case *ssa.FieldAddr:
+						if _, f, ok := fieldOf(y); ok && f == "maxSteps" {
+							for _, rr := range refs(y) {
+								if st, ok := rr.(*ssa.Store); ok && st.Addr == ssa.Value(y) && fromCreator(st.Val) {
+									inherits = true
+								}
+							}
+						}
+					case *ssa.Call:
+						if callName(y) == vmPath+".VM.SetMaxSteps" && len(y.Call.Args) == 2 && y.Call.Args[0] == made && fromCreator(y.Call.Args[1]) {
+							inherits = true
+						}
+					}
+				}
+				c.ob("C04-R3", fnKey(fn)+"#child-VM-"+itoa(k)+"-inherits-the-step-bound", ins.Pos(), inherits, "a VM created by a running VM (for the body of an async block) does not take over its creator's step bound: a route limited with SetMaxSteps(n) runs every async body under the package default instead - each block a fresh budget of its own, spinning on after Execute has returned")
+			})
+		}
+		c.Sites["C04-R3#child-VMs"] = nChild
 		stepLimitInRunLoop(c, "C04-R3")
 	}
 
